@@ -146,6 +146,31 @@ def _update_patch_return_edges_to_match(
             )
 
 
+def _connect_empty_tail(
+    cache: ModifyCache, cfg: gtirb.CFG, tail: gtirb.ByteBlock
+) -> None:
+    """
+    An empty block split off the end of a block that ended in a jump or
+    return has no successor yet, but whatever ends up in front of it (inserted
+    code, or the block itself once its terminator is gone) runs into the code
+    that physically follows.
+    """
+    if (
+        isinstance(tail, gtirb.CodeBlock)
+        and not tail.size
+        and not any(tail.outgoing_edges)
+    ):
+        _, next_block = cache.adjacent_blocks(tail)
+        if isinstance(next_block, gtirb.CodeBlock):
+            cfg.add(
+                gtirb.Edge(
+                    source=tail,
+                    target=next_block,
+                    label=gtirb.Edge.Label(type=gtirb.Edge.Type.Fallthrough),
+                )
+            )
+
+
 def delete(
     cache: ModifyCache,
     block: gtirb.ByteBlock,
@@ -173,6 +198,8 @@ def delete(
     if length != block.size:
         start, end, _ = split_block(cache, block, offset)
         mid, end, _ = split_block(cache, end, length)
+        assert block.ir
+        _connect_empty_tail(cache, block.ir.cfg, end)
 
         remove_block(cache, mid)
         edit_byte_interval(bi, start.offset + offset, length, b"", {start})
@@ -263,7 +290,10 @@ def insert(
         mid_block, end_block, _ = split_block(
             cache, end_block, replacement_length
         )
+        _connect_empty_tail(cache, cfg, end_block)
         remove_block(cache, mid_block)
+    else:
+        _connect_empty_tail(cache, cfg, end_block)
 
     # Stitch in the new blocks to the CFG
     if added_fallthrough:
